@@ -42,6 +42,7 @@ def gen_handle_program(ch: Choices, avoid_known: bool) -> RawProgram:
     nstmt = 2 + ch.choice(4, "nstmt")
     results = []
     used: dict[str, int] = {}
+    lazy_other_arg: dict[str, list] = {}
     for k in range(nstmt):
         h = handles[ch.choice(len(handles), "pick-h")]
         if avoid_known and used.get(h):
@@ -53,6 +54,7 @@ def gen_handle_program(ch: Choices, avoid_known: bool) -> RawProgram:
             h = fresh[ch.choice(len(fresh), "pick-fresh-h")]
         used[h] = used.get(h, 0) + 1
         r = ch.choice(3, "arg-kind")
+        lazy_other_arg.setdefault(h, []).append(not (r == 0 or (r == 2 and not ints)))
         if r == 0 or (r == 2 and not ints):
             arg = str(ch.choice(5, "lit"))
         elif r == 1:
@@ -71,6 +73,10 @@ def gen_handle_program(ch: Choices, avoid_known: bool) -> RawProgram:
     lines.append("@task()\ndef t0():\n" + "\n".join(body) + "\n    return [" + ", ".join(results) + "]\n")
     prog = RawProgram("".join(lines))
     prog.fanout = any(n > 1 for n in used.values())
+    # The known fan-out finding needs sibling consumers of one handle state to *arrive* in a
+    # schedule-dependent order, i.e. one of them has another argument that is still being
+    # computed.  With ready arguments arrival order is creation order.
+    prog.fanout_lazy = any(len(v) > 1 and any(v) for v in lazy_other_arg.values())
     return prog
 
 
@@ -109,7 +115,8 @@ class C07(EngineACheck):
         if mode <= 2:
             prog = gen_handle_program(ch, avoid_known=(mode >= 1))
             out.probe("handle_programs")
-            shape = "handle-fanout" if prog.fanout else "handle-chain"
+            shape = ("handle-fanout" if prog.fanout_lazy else
+                     "handle-fanout-ready-args" if prog.fanout else "handle-chain")
             out.probe(shape.replace("-", "_") + "_programs")
             names = LIMIT_NAMES
         else:
@@ -152,13 +159,19 @@ class C07(EngineACheck):
             waited = bool(d["waited"] or base["waited"])
             # A handle handed to several sibling calls is a different root cause (fork keys by
             # order of first arrival) from everything else, so it gets its own signature.
-            sig = shape if shape == "handle-fanout" else (
+            sig = shape if shape.startswith("handle-fanout") else (
                 f"{shape}/" + ("after-limit-wait" if waited else "schedule-only"))
             lims = [base["limits"], d["limits"]]
             if d["outcome"] != base["outcome"]:
                 out.violate("C07.outcome", sig, {"a": repr(base["outcome"])[:300],
                                                  "b": repr(d["outcome"])[:300], "limits": lims})
                 break
+            if base["outcome"][0] == "e":
+                # The execution raised (e.g. a lazy division by zero): which jobs got to finish
+                # before the workflow stopped is legitimately schedule-dependent, and so is the
+                # recorded graph; only the outcome is compared.
+                out.probe("failing_programs_outcome_only")
+                continue
             diff = None
             if d["handles"] != base["handles"]:
                 diff = {"what": "handle hashes",
